@@ -1,0 +1,11 @@
+//go:build verif
+
+package utils
+
+// VerifLen returns the number of channels that are currently registered and whether the broadcaster is closed
+func (b *Broadcaster[T]) VerifLen() (int, bool) {
+	b.lock.Lock()
+	defer b.lock.Unlock()
+
+	return len(b.channels), b.closed
+}
